@@ -307,6 +307,38 @@ class Prop:
                 return 'Example() of an accepted schema fails: ' + ex[:120]
         return None
 
+    def extra_checks(self, tier, rng, cases, impl):
+        """links the graph model has no edge kind for: members behind a key shortcut (any number of them, none included, so what
+        their value refers to is not required); hand-written, with the verdict the property demands"""
+        import vf
+        from props.c10 import spec
+        K = {'@k': '"key"'}
+        hand = [
+            ('{\n  "a": 1,\n  @k: @main\n}', 'ok'),
+            ('{\n  @k: @main\n}', 'ok'),
+            ('{\n  "a": 1,\n  @k: {\n    "deep": @main\n  }\n}', 'ok'),
+            ('{\n  "a": @main,\n  @k: 1\n}', '104'),
+            ('{\n  @k: @other\n}', 'ok'),
+            ('{\n  "x": @other,\n  @k: 1\n}', '104'),
+        ]
+        lines = []
+        for body, want in hand:
+            types = dict(K)
+            types['@main'] = body
+            types['@other'] = '{\n  "back": @main\n}'
+            lines.append('proj all %s N %s' % (spec(body, types), hx('@main')))
+        bad = []
+        self.hand_cases = len(lines)
+        for l, o, (body, want) in zip(lines, vf.run_impl(lines), hand):
+            m = re.match(r'check=(\S+)', o)
+            got = 'unreadable' if not m else 'ok' if m.group(1) == 'ok' else '104' if m.group(1).startswith('err:104@') else m.group(1)
+            if got != want:
+                bad.append((Case(l, 'hand-written-key-shortcut-links'),
+                            ('infinite recursion reported for a schema that has a finite instance (%s)' if want == 'ok' else
+                             'the root requires itself through a chain of mandatory links but Check() does not say so (%s)') % body.replace('\n', ' ')[:80]
+                            + ': Check() = ' + got[:40]))
+        return bad
+
     def shrink_candidates(self, case):
         rootname, style, root, types = self.parse(case.line)
         for t in list(types):
